@@ -103,7 +103,7 @@ CLAIMED = {
             "Bounded: <= 3 computations, 1-2 agents in quick (3 in thorough), real-valued parameters in [0, 2^20], unit message load. The ILP methods' solve step cannot run (no GLPK); the distribute command (file I/O) is outside.", "4/C23", S),
     "C24": ("S", "oilp_cgdp.ilp_cgdp and ilp_fgdp.factor_graph_lp_model are executed with symbolic capacities, footprints, hosting costs and routes flowing through PuLP's coefficient arithmetic; "
                  "LpProblem.solve is replaced by a capture of the built model. For every 0/1 point z3 decides, for all parameter values, model-feasible <=> the method's hard rules, and objective == the method's own "
-                 "distribution_cost of the decoded placement. One listed finding (oilp_cgdp objective with pinned computations).",
+                 "distribution_cost of the decoded placement. One listed finding (load of a pair joined by several links counted once in the objective, once per link in distribution_cost); the finding about pinned computations was repaired (6d27a91), the check being the validation of the repaired model.",
             "Model == specification only: the LP solver itself (GLPK, not installed) is trusted and never run. Bounded: <= 3 computations x 2 agents (3 in thorough), unit message load, real parameters in [0, 2^20].", "4/C24", S),
     "C25": ("S", "Real UCSReplication computations (one per agent, real Discovery, stand-in Agent) exchange their real messages on the bench with symbolic capacities, footprints, hosting and route costs "
                  "(the sorted path tables fork on them), k chosen, FIFO interleavings explored; z3 decides at every acceptance the capacity inequality recomputed from the replicas actually held, and the final "
